@@ -4,16 +4,22 @@ import A5.Model.MemoFloat
 /-! `a5driver`: one request per line on stdin, one response per line on stdout. -/
 open A5 A5.Driver
 
+def handleOp (op : String) (args : List String) : String :=
+  match intOps op args with
+  | some r => r
+  | none =>
+    match floatOps op args with
+    | some r => r
+    | none => "bad-op"
+
 def handle (line : String) : String :=
   match (line.trimAscii.toString.splitOn " ").filter (· ≠ "") with
   | [] => "bad-op"
-  | op :: args =>
-    match intOps op args with
+  | "digest" :: op :: args =>
+    match digestOps op args with
     | some r => r
-    | none =>
-      match floatOps op args with
-      | some r => r
-      | none => "bad-op"
+    | none => digestStr (handleOp op args)
+  | op :: args => handleOp op args
 
 /-- a dodeca call of a history: `dodeca_forward,t,p,o` / `dodeca_inverse,x,y,o` -/
 def parseDCall (s : String) : Option DCall :=
